@@ -58,6 +58,8 @@ var phaseOrder = map[string]int{"idle": 0, "hdr": 1, "body": 2, "wait": 3, "resp
 // arrivalWaitMs bounds the wait for a request to show up at the upstream (shortened once the proxy process is gone).
 var arrivalWaitMs = int64(ioWait / time.Millisecond)
 
+type abandoned struct{}
+
 // live is one client connection of a trial and the state of its current request.
 type live struct {
 	cl  client
@@ -91,8 +93,13 @@ func advanceReq(tr *ttrace, arr *arrivals, lv *live, n, to, prefix string, cc co
 			if err := lv.cl.Rest(); err != nil {
 				return false, "write body: " + short(err)
 			}
-			if !arr.wait(lv.tok, time.Duration(atomic.LoadInt64(&arrivalWaitMs))*time.Millisecond) {
-				return false, "request never reached the upstream"
+			for t0 := time.Now(); !arr.wait(lv.tok, 150*time.Millisecond); {
+				if !lv.cl.Alive() {
+					return false, "connection closed by the proxy before the request reached the upstream"
+				}
+				if time.Since(t0) > time.Duration(atomic.LoadInt64(&arrivalWaitMs))*time.Millisecond {
+					return false, "request never reached the upstream"
+				}
 			}
 			lv.ph = "wait"
 		case "wait":
@@ -336,7 +343,9 @@ func main() {
 
 	idx := 0
 	overdue := 0
-	err := vh.ReadCases(*cases, func(raw json.RawMessage) error {
+	failures := 0
+	var fmu sync.Mutex
+	err := vh.ReadCases(*cases, func(raw json.RawMessage) (rerr error) {
 		idx++
 		if (idx-1)%*shards != *shard {
 			return nil
@@ -345,9 +354,30 @@ func main() {
 		if err := json.Unmarshal(raw, &c); err != nil {
 			return err
 		}
+		conns := map[string]*live{}
+		defer func() {
+			if r := recover(); r != nil {
+				if _, ok := r.(abandoned); !ok {
+					panic(r)
+				}
+				curMu.Lock()
+				cur = ""
+				curMu.Unlock()
+				for _, lv := range conns {
+					lv.cl.Close()
+				}
+				arr.releaseAll()
+				rs.Put(map[string]interface{}{"id": c.ID, "proto": c.Proto, "mode": c.Mode, "abandoned": true})
+			}
+		}()
 		li := lis[c.Proto]
 		if li == nil {
 			return fmt.Errorf("unknown proto %q", c.Proto)
+		}
+		if failures >= 12 {
+			// the trace already holds a dozen failed in-flight requests; the remaining signal points of this shard are not run
+			rs.Put(map[string]interface{}{"id": c.ID, "proto": c.Proto, "mode": c.Mode, "skipped": "too many failed requests in this shard"})
+			return nil
 		}
 		if overdue >= 2 && c.Mode == "hang" {
 			// already recorded twice in this shard that the stop ignores its timeout: do not spend 20 s on every further stalled run
@@ -393,11 +423,10 @@ func main() {
 			}
 		}
 		sort.Strings(names)
-		conns := map[string]*live{}
+		// the signal point could not be set up (something failed before any signal): the run is abandoned, not judged
 		fail := func(what string, err error) {
-			tr.Close()
-			rs.Close()
-			vh.Must(fmt.Errorf("case %d %s: %v", c.ID, what, err), "set-up of the signal point")
+			tr.Emit(vh.Ev{"ev": "abandon", "why": what + ": " + short(err)})
+			panic(abandoned{})
 		}
 		advance := func(n string, to string) (bool, string) {
 			return advanceReq(tr, arr, conns[n], n, to, fmt.Sprintf("s%d-%d", *shard, c.ID), c.Conns[n])
@@ -483,6 +512,11 @@ func main() {
 				defer wg.Done()
 				ok, d := advance(n, "idle")
 				tr.Emit(vh.Ev{"ev": "c.done", "c": n, "k": conns[n].k, "ok": ok, "detail": d})
+				if !ok {
+					fmu.Lock()
+					failures++
+					fmu.Unlock()
+				}
 			}()
 		}
 		wg.Wait()
